@@ -185,6 +185,15 @@ def gen(seed, tier):
             segs.append(seg(0, [g.f_long(r.choice([20, 21]), icao, None, bds30(bits | (r.getrandbits(18) << 1)))]))
         cases.append(H("C10-e%d" % n, o, segs))
         n += 1
+    # (f) the FIRST frame heard from an aircraft is a Comm-B reply (callsign, registers, ACAS): it creates the row and nothing more
+    for i in range(12 if tier == "quick" else 120):
+        icao = r.choice(ICAOS)
+        o = {"U": 1} if i % 2 else {}
+        kind, m = plausible_regs(g)
+        first = r.choice([bds20([r.randint(1, 26) for _ in range(8)]), m, bds30((1 << 47) | r.getrandbits(18)), bds17([9, 16, 24])])
+        segs = [seg(0, [g.f_long(r.choice([20, 21]), icao, None, first)]), seg(0, [g.f_df11(icao, ca=5)])]
+        cases.append(H("C10-f%d" % n, o, segs))
+        n += 1
     # (c) first match wins: a register that satisfies the rules of two registers is decoded as the earlier one only
     for i in range(24 if tier == "quick" else 200):
         icao = r.choice(ICAOS)
@@ -256,6 +265,11 @@ def oracle(parts, outcome, obs):
             return fails + ["segment %d: no row" % k]
         row = list(rows.values())[0]
         fr = pyspec.frame_of_line(lines[0])
+        if fr and fr != "zero" and prev is None and fr[0] in (20, 21) and not relaxed:
+            # no capability has been recorded for an aircraft heard for the first time: nothing derived from the MB field
+            shown = [f for f in ("ais", "te", "sela", "baro", "roll", "tar", "tas", "hdg", "ias", "mach") if row.get(f) not in ("-", None)]
+            if shown:
+                fails.append("segment %d: the first frame of the aircraft is a Comm-B reply, no capability recorded and no -R, yet %s is shown" % (k, shown))
         if fr and fr != "zero" and prev is not None:
             df, icao, v, nb = fr
             if df in (20, 21) and (relaxed or (cap_strict >= 4) == (cap_lenient >= 4)):
